@@ -111,6 +111,14 @@ def run(tier, seed):
     sweeps_small = [("a(i,k) = b(i,j) * c(j,k)", ["a", "b", "c"]), ("a(i,j) = b(i,j) + c(j,i)", ["a", "b", "c"]),
                     ("a(i) = b(i,j) * c(j)", ["a", "b", "c"])]
     n_sweep = 0
+    # order 4: every format of the target against three formats of the operand (inner levels swapped)
+    for ci, tf in enumerate(_k.all_formats(4)):
+        for bf in ("s0s1s2s3", "d0d1d2d3", "s0d1d2s3"):
+            lines.append({"text": "a(i,j,k,l) = b(i,k,j,l)", "formats": [["a", tf], ["b", bf]],
+                          "kinds": [["evaluate"], ["compute"], ["assemble"]][ci % 3], "lang": "c" if ci % 2 else "llvm",
+                          "entry": "library" if ci % 5 else "cli", "allowed": ["Code", "NoKernelFoundError"], "diagonal": False,
+                          "broadcast": False, "leaves": 1, "sweep": True})
+            n_sweep += 1
     for text, names in sweeps + sweeps_small:
         orders = {"a": text.split("=")[0].count(",") + 1}
         from .. import exprs as _e
